@@ -101,4 +101,115 @@ example : defaultTypeName (.dict [("_typename", .str "Dog")]) = .str "Dog" := rf
 example : defaultTypeName (.obj "Row" [("_typename", .str "Dog")]) = .str "Dog" := rfl
 example : defaultTypeName (.obj "Dog" []) = .str "Dog" := rfl
 
+/-! ### @skip / @include -/
+
+/-- the coerced `if` condition of a built-in @skip / @include use, when it coerces -/
+def condition (fuel : Nat) (ctx : Ctx) (d : Directive) : Option PyVal :=
+  match coerceArguments fuel ctx.S ctx.o ifArgDefs d.loc d.args ctx.vars with
+  | .ok args => lookupKV "if" args
+  | .error _ => none
+
+/-- a selection is collected iff every @skip condition coerces to a falsy value and every @include
+    condition to a truthy one -/
+theorem included_iff (fuel : Nat) (ctx : Ctx) (dirs : List Directive) :
+    shouldInclude fuel ctx dirs = true ↔
+      ∀ d ∈ dirs, (d.name == "skip" → ∃ v, condition fuel ctx d = some v ∧ py_truthy v = false) ∧
+                  (d.name == "include" → ∃ v, condition fuel ctx d = some v ∧ py_truthy v = true) := by
+  unfold shouldInclude
+  rw [List.all_eq_true]
+  constructor
+  · intro h d hd
+    have := h d hd
+    unfold condition
+    by_cases hs : (d.name == "skip") = true
+    · simp only [hs, Bool.true_or, if_true] at this
+      refine ⟨fun _ => ?_, fun hi => ?_⟩
+      · cases hc : coerceArguments fuel ctx.S ctx.o ifArgDefs d.loc d.args ctx.vars with
+        | error e => simp [hc] at this
+        | ok args =>
+          simp only [hc] at this
+          cases hl : lookupKV "if" args with
+          | none => simp [hl] at this
+          | some v => simp only [hl] at this; exact ⟨v, by simp [hl], by simpa using this⟩
+      · have : d.name = "skip" := by simpa using hs
+        have : d.name = "include" := by simpa using hi
+        simp_all
+    · by_cases hi : (d.name == "include") = true
+      · have hs' : (d.name == "skip") = false := by simpa using hs
+        simp only [hs', hi, Bool.false_or, if_true] at this
+        refine ⟨fun h => by simp [hs'] at h, fun _ => ?_⟩
+        cases hc : coerceArguments fuel ctx.S ctx.o ifArgDefs d.loc d.args ctx.vars with
+        | error e => simp [hc] at this
+        | ok args =>
+          simp only [hc] at this
+          cases hl : lookupKV "if" args with
+          | none => simp [hl] at this
+          | some v => simp only [hl] at this; exact ⟨v, by simp [hl], by simpa using this⟩
+      · exact ⟨fun h => absurd h hs, fun h => absurd h hi⟩
+  · intro h d hd
+    obtain ⟨h1, h2⟩ := h d hd
+    by_cases hs : (d.name == "skip") = true
+    · obtain ⟨v, hv, ht⟩ := h1 hs
+      unfold condition at hv
+      simp only [hs, Bool.true_or, if_true]
+      cases hc : coerceArguments fuel ctx.S ctx.o ifArgDefs d.loc d.args ctx.vars with
+      | error e => simp [hc] at hv
+      | ok args => simp only [hc] at hv; simp [hv, ht]
+    · have hs' : (d.name == "skip") = false := by simpa using hs
+      by_cases hi : (d.name == "include") = true
+      · obtain ⟨v, hv, ht⟩ := h2 hi
+        unfold condition at hv
+        simp only [hs', hi, Bool.false_or, if_true]
+        cases hc : coerceArguments fuel ctx.S ctx.o ifArgDefs d.loc d.args ctx.vars with
+        | error e => simp [hc] at hv
+        | ok args => simp only [hc] at hv; simp [hv, ht]
+      · have hi' : (d.name == "include") = false := by simpa using hi
+        simp [hs', hi']
+
+/-- with boolean conditions this is the specification's rule: a selection is collected iff no @skip
+    says true and no @include says false (@skip therefore wins over @include) -/
+theorem boolean_conditions_follow_spec (fuel : Nat) (ctx : Ctx) (dirs : List Directive) (b : Directive → Bool)
+    (h : ∀ d ∈ dirs, (d.name == "skip" || d.name == "include") = true → condition fuel ctx d = some (.bool (b d))) :
+    shouldInclude fuel ctx dirs = true ↔
+      ∀ d ∈ dirs, (d.name == "skip" → b d = false) ∧ (d.name == "include" → b d = true) := by
+  rw [included_iff]
+  constructor
+  · intro H d hd
+    obtain ⟨h1, h2⟩ := H d hd
+    refine ⟨fun hs => ?_, fun hi => ?_⟩
+    · obtain ⟨v, hv, ht⟩ := h1 hs
+      rw [h d hd (by simp [hs])] at hv; cases hv; simpa [py_truthy] using ht
+    · obtain ⟨v, hv, ht⟩ := h2 hi
+      rw [h d hd (by simp [hi])] at hv; cases hv; simpa [py_truthy] using ht
+  · intro H d hd
+    obtain ⟨h1, h2⟩ := H d hd
+    refine ⟨fun hs => ⟨_, h d hd (by simp [hs]), by simp [py_truthy, h1 hs]⟩,
+            fun hi => ⟨_, h d hd (by simp [hi]), by simp [py_truthy, h2 hi]⟩⟩
+
+/-- KNOWN DEVIATION (KF-C01-1), stated as what the model — and the engine it mirrors — does: a
+    @skip / @include whose `if` argument does not coerce (a nullable variable with a default that the
+    request sets to null, at the `Boolean!` position) EXCLUDES the selection, silently.  The
+    specification would keep the selection (the condition is not `true`) or fail it. -/
+theorem uncoercible_condition_excludes (fuel : Nat) (ctx : Ctx) (dirs : List Directive) (d : Directive)
+    (hd : d ∈ dirs) (hn : (d.name == "skip" || d.name == "include") = true)
+    (hc : condition fuel ctx d = none) : shouldInclude fuel ctx dirs = false := by
+  cases hsi : shouldInclude fuel ctx dirs with
+  | false => rfl
+  | true =>
+    obtain ⟨h1, h2⟩ := (included_iff fuel ctx dirs).mp hsi d hd
+    cases hs : (d.name == "skip") with
+    | true => obtain ⟨v, hv, _⟩ := h1 hs; rw [hc] at hv; cases hv
+    | false =>
+      have hi : (d.name == "include") = true := by simpa [hs] using hn
+      obtain ⟨v, hv, _⟩ := h2 hi; rw [hc] at hv; cases hv
+
+/-- non-vacuity of both: `@skip(if: $v)` with `$v = false` keeps the selection, with `$v = null` drops it -/
+def ctxV (v : PyVal) : Ctx :=
+  { S := { types := [], queryType := "Query", mutationType := none, subscriptionType := none },
+    doc := default, vars := [("v", v)], env := ⟨[], [], []⟩, o := ⟨fun _ => none⟩ }
+def skipV : Directive := ⟨"skip", [⟨"if", .var "v", ⟨1, 20⟩⟩], ⟨1, 10⟩⟩
+example : shouldInclude 5 (ctxV (.bool false)) [skipV] = true := by decide +kernel
+example : shouldInclude 5 (ctxV (.bool true)) [skipV] = false := by decide +kernel
+example : condition 5 (ctxV .none) skipV = none ∧ shouldInclude 5 (ctxV .none) [skipV] = false := by decide +kernel
+
 end Tart.C01
